@@ -9,7 +9,7 @@ PROPERTY_ID = "C15"
 RULE = ("programs for a field stack machine (push 32-byte encoding, add, sub, neg, mul, sq, sqn k, sq2, inv, pow25523; observations to_bytes, is_negative, "
         "is_nonzero, ==) enumerated from the grammar M ::= leaf | mul(A,A) | sq(A) | sqn(A,k) | sq2(A) | inv(A) | pow25523(A), A ::= M | add(M,M) | sub(M,M) | neg(M) "
         "(the documented operand discipline) to nesting depth 2 (thorough 3) over boundary leaves (0,1,2,19,p-1,p,p+1,2^255-20,2^255-1,2^256-1,2^254,sqrt(-1),d,2d, "
-        "limb-edge patterns, patterns); scalar wide reduction on 0,1,L-1,L,L+1,2L,kL-1,kL,kL+1, every 2^i (i<512), 2^512-1, patterns; canonical decoder on values "
+        "limb-edge patterns, patterns); scalar wide reduction on 0,1,L-1,L,L+1,2L,kL-1,kL,kL+1, every 2^i (i<512), 2^512-1, and a sweep of 30000 (thorough 200000) pattern windows; canonical decoder on values "
         "around L and every byte of L +-1; group stack machine: s*B for every single-nibble scalar and boundary scalars, a*A+b*B for all pairs of boundary scalars "
         "(incl. every odd 1..15) x 14 points, double/add/sub for all pairs of the point set, encode/decode of all points, non-canonical encodings and non-points; "
         "oracle = python integers / RFC 8032 point arithmetic; distinct = program text")
@@ -191,6 +191,11 @@ def scalar_cases(tier):
         for off in (0, 64):
             b = pat(k, off, 64)
             out.append((["sc_reduce %s" % H(b)], [(int.from_bytes(b, "little") % L).to_bytes(32, "little").hex()], None))
+    # value-dependent paths of the Barrett reduction fire with probability ~2^-12 per input: sweep many pattern windows
+    nsweep = 200000 if tier == "thorough" else 30000
+    for i in range(nsweep):
+        b = pat(5 + (i % 3), 64 * (i // 3) % 65000 + (i % 61), 64)
+        out.append((["sc_reduce %s" % H(b)], [(int.from_bytes(b, "little") % L).to_bytes(32, "little").hex()], None))
     canon = [0, 1, L - 1, L, L + 1, 1 << 252, (1 << 253) - 1, (1 << 255) - 1, (1 << 256) - 1, 2 * L, L - 2, (1 << 252) - 1]
     lb = L.to_bytes(32, "little")
     for i in range(32):
